@@ -140,6 +140,10 @@ pub struct StubSource<'a, X: Item> {
     gap_at: Option<usize>,
     gap_done: bool,
     polled_after_end: &'a mut usize,
+    /// fault kind F10: `size_hint()` unwinds (first call) / the source's own `Drop` unwinds
+    hint_panic: bool,
+    drop_panic: bool,
+    extra_fired: &'a mut bool,
 }
 impl<'a, X: Item> Iterator for StubSource<'a, X> {
     type Item = X;
@@ -166,6 +170,11 @@ impl<'a, X: Item> Iterator for StubSource<'a, X> {
         Some(x)
     }
     fn size_hint(&self) -> (usize, Option<usize>) {
+        if self.hint_panic && !std::thread::panicking() {
+            tok::note(EV_INJECT, 5900);
+            // (a shared flag cannot be set through &self; the caller learns it from the unwinding)
+            std::panic::panic_any(Injected);
+        }
         let rem = self.buf.len().min(self.eof_after.saturating_sub(self.pulled.len()));
         match self.hint {
             0 => (rem, Some(rem)),
@@ -179,6 +188,11 @@ impl<'a, X: Item> Drop for StubSource<'a, X> {
     fn drop(&mut self) {
         while let Some(x) = self.buf.pop_front() {
             self.sink.push(x);
+        }
+        if self.drop_panic && !std::thread::panicking() {
+            *self.extra_fired = true;
+            tok::note(EV_INJECT, 5901);
+            std::panic::panic_any(Injected);
         }
     }
 }
@@ -797,7 +811,7 @@ impl<'s, X: Item> VecExec<'s, $K, X> {
                 let mut items: VecDeque<X> = VecDeque::with_capacity(n + 4);
                 <$K as Kind<X>>::arr_drain(a, &mut items);
                 let src_model: Vec<Grp> = std::mem::take(&mut self.model);
-                let mode = op.a % 5;
+                let mode = op.a % 7;
                 let j = (op.b & 0xff) as usize;
                 let hint = ((op.b >> 8) & 3) as u8;
                 let mut eof_after = usize::MAX;
@@ -805,9 +819,23 @@ impl<'s, X: Item> VecExec<'s, $K, X> {
                 let mut surplus = 0usize;
                 let mut gap_at: Option<usize> = None;
                 let mut polled_after_end = 0usize;
+                let mut hint_panic = false;
+                let mut drop_panic = false;
+                let mut extra_fired = false;
                 match mode {
                     0 => {
                         self.st.probes[P_FROMITER_EXACT] += 1;
+                    }
+                    5 => {
+                        // the source's size_hint() unwinds (if from_iter asks at all)
+                        hint_panic = true;
+                        self.st.fault_cfg[F_SOURCE_EXTRA] += 1;
+                    }
+                    6 => {
+                        // the source's own destructor unwinds, after 0..=N elements were handed over
+                        drop_panic = true;
+                        eof_after = j % (n + 1);
+                        self.st.fault_cfg[F_SOURCE_EXTRA] += 1;
                     }
                     1 => {
                         eof_after = j % n; // strictly fewer than N
@@ -849,10 +877,10 @@ impl<'s, X: Item> VecExec<'s, $K, X> {
                 }
                 let mut sink: Vec<X> = Vec::new();
                 let mut pulled: Vec<Grp> = Vec::new();
-                let relaxed = panic_at != 0 || op.f > 0;
+                let relaxed = panic_at != 0 || op.f > 0 || hint_panic || drop_panic;
                 let allow = m(OWN_FRESH) | m(OWN_DOOMED) | if relaxed { m(OWN_MAIN) } else { 0 };
                 let (r, fired) = {
-                    let src = StubSource { buf: items, sink: &mut sink, pulled: &mut pulled, eof_after, panic_at, hint, cap: n, calls: 0, gap_at, gap_done: false, polled_after_end: &mut polled_after_end };
+                    let src = StubSource { buf: items, sink: &mut sink, pulled: &mut pulled, eof_after, panic_at, hint, cap: n, calls: 0, gap_at, gap_done: false, polled_after_end: &mut polled_after_end, hint_panic, drop_panic, extra_fired: &mut extra_fired };
                     guard(allow, 0, plan_of(Cb::Default, op.f), move || <$K as Kind<X>>::v_from_iter(src))
                 };
                 self.leftovers.append(&mut sink);
@@ -894,11 +922,35 @@ impl<'s, X: Item> VecExec<'s, $K, X> {
                         if fired {
                             self.st.fault_fired[F_DEFAULT_PANIC] += 1;
                             self.st.probes[P_DEFAULT_PANIC_FIRED] += 1;
+                        } else if hint_panic || extra_fired {
+                            self.st.fault_fired[F_SOURCE_EXTRA] += 1;
+                            self.st.probes[P_SOURCE_EXTRA_FIRED] += 1;
+                            if extra_fired {
+                                // R-unwind (a): the unwinding came out of a *destructor* (the source's own).
+                                // rustc leaks a function's already-computed return value when the
+                                // destructor of one of its locals panics (rust-lang/rust#47949), so the
+                                // finished vector may be abandoned: no container code can prevent that.
+                                // Abandoned elements are exempt from the leak check only.
+                                for id in tok::fresh_in_op() {
+                                    if !tok::gone(id) && tok::state_of(id) == Some(St::Live) {
+                                        tok::set_state(id, St::MayLeak);
+                                    }
+                                }
+                                for g in &pulled {
+                                    for id in g.iter() {
+                                        if !tok::gone(id) && tok::state_of(id) == Some(St::Live) {
+                                            tok::set_state(id, St::MayLeak);
+                                        }
+                                    }
+                                }
+                            }
                         } else {
                             self.st.fault_fired[F_SOURCE] += 1;
                             self.st.probes[P_SOURCE_PANIC_FIRED] += 1;
                         }
-                        self.settle_unwound(&pulled, "from_iter");
+                        if !extra_fired {
+                            self.settle_unwound(&pulled, "from_iter");
+                        }
                     }
                     Err(t) => self.unexpected("from_iter", t),
                 }
@@ -1044,6 +1096,10 @@ impl<'s, X: Item> VecExec<'s, $K, X> {
                     self.st.fault_cfg[F_SINK] += 1;
                     set_sink_fail(op.b);
                 }
+                if op.b > 0 && kind == 1 {
+                    self.st.fault_cfg[F_HASHER] += 1;
+                    tok::set_hash_fail(op.b);
+                }
                 let (r, fired) = guard(0, m(OWN_MAIN), plan_of(Cb::Observe, op.f), || match kind {
                     0 => {
                         <$K as Kind<X>>::v_observe_debug(v);
@@ -1065,9 +1121,13 @@ impl<'s, X: Item> VecExec<'s, $K, X> {
                 if take_sink_fired() {
                     self.st.fault_fired[F_SINK] += 1;
                 }
+                let hfired = tok::take_hash_fired();
+                if hfired {
+                    self.st.fault_fired[F_HASHER] += 1;
+                }
                 match r {
                     Ok(()) => {}
-                    Err(Thrown::Injected) if fired => {}
+                    Err(Thrown::Injected) if fired || hfired => {}
                     Err(t) => self.unexpected("observe on a vector", t),
                 }
                 self.check_form("observe");
@@ -1081,11 +1141,12 @@ impl<'s, X: Item> VecExec<'s, $K, X> {
                         return false;
                     }
                 };
-                let mode = op.a % 3;
+                let mode = op.a % 4;
                 let what = match mode {
                     0 => "map",
                     1 => "zip + map",
-                    _ => "map2",
+                    2 => "map2",
+                    _ => "map3",
                 };
                 // the second operand (modes 1, 2): fresh elements which the closure destroys
                 let (w, wg) = if mode > 0 {
@@ -1095,6 +1156,15 @@ impl<'s, X: Item> VecExec<'s, $K, X> {
                 } else {
                     (None, Vec::new())
                 };
+                // the third operand (mode 3)
+                let (u, ug) = if mode == 3 {
+                    let (items, grps) = Self::fresh_items(OWN_DOOMED);
+                    self.st.elements_created += (n * X::W) as u64;
+                    (Some(<$K as Kind<X>>::v_from_arr(<$K as Kind<X>>::arr_from_vec(items))), grps)
+                } else {
+                    (None, Vec::new())
+                };
+                let wg: Vec<Grp> = wg.into_iter().chain(ug.into_iter()).collect();
                 if op.f > 0 {
                     self.st.fault_cfg[F_CLOSURE_PANIC] += 1;
                 }
@@ -1127,8 +1197,14 @@ impl<'s, X: Item> VecExec<'s, $K, X> {
                                 drop(y);
                                 x
                             }),
-                            _ => <$K as Kind<X>>::v_map2(v, w.unwrap(), |x, y| {
+                            2 => <$K as Kind<X>>::v_map2(v, w.unwrap(), |x, y| {
                                 hit(&x);
+                                drop(y);
+                                x
+                            }),
+                            _ => <$K as Kind<X>>::v_map3(v, w.unwrap(), u.unwrap(), |x, y, z| {
+                                hit(&x);
+                                drop(z);
                                 drop(y);
                                 x
                             }),
@@ -1165,6 +1241,169 @@ impl<'s, X: Item> VecExec<'s, $K, X> {
                 }
                 true
             }
+            VReduce => {
+                let v = match std::mem::replace(&mut self.form, Form::Gone) {
+                    Form::V(v) => v,
+                    other => {
+                        self.form = other;
+                        return false;
+                    }
+                };
+                self.st.probes[P_VREDUCE] += 1;
+                let keep_new = op.a % 2 == 1;
+                let what = "reduce";
+                let all: Vec<Grp> = self.model.drain(..).collect();
+                // the closure destroys one of its two arguments at every call; what is left at the
+                // end is destroyed by the harness
+                for g in &all {
+                    g.set_owner(OWN_DOOMED);
+                }
+                if op.f > 0 {
+                    self.st.fault_cfg[F_CLOSURE_PANIC] += 1;
+                }
+                let panic_at = op.f as usize;
+                let mut calls = 0usize;
+                let mut fired = false;
+                let mut seen: Vec<Grp> = Vec::with_capacity(n);
+                let mut bad: Option<String> = None;
+                let mut acc: Option<Grp> = None;
+                let (r, _) = {
+                    let calls = &mut calls;
+                    let fired = &mut fired;
+                    let seen = &mut seen;
+                    let bad = &mut bad;
+                    let acc = &mut acc;
+                    guard(m(OWN_DOOMED), 0, None, move || {
+                        <$K as Kind<X>>::v_reduce(v, |a, b| {
+                            if tok::should_abandon() {
+                                std::panic::panic_any(Injected);
+                            }
+                            *calls += 1;
+                            let (ga, gb) = (a.grp(), b.grp());
+                            match *acc {
+                                None => seen.push(ga),
+                                Some(prev) => {
+                                    if prev != ga && bad.is_none() {
+                                        *bad = Some(format!("call {}: the accumulator handed in is not the value the previous call returned", *calls));
+                                    }
+                                }
+                            }
+                            if (seen.contains(&gb) || ga == gb) && bad.is_none() {
+                                *bad = Some(format!("call {}: the closure was handed id {} a second time", *calls, gb.first()));
+                            }
+                            seen.push(gb);
+                            if *calls > 80 {
+                                std::panic::panic_any(Injected);
+                            }
+                            if panic_at != 0 && *calls == panic_at {
+                                *fired = true;
+                                tok::note(EV_INJECT, 7000 + *calls as u64);
+                                std::panic::panic_any(Injected);
+                            }
+                            if keep_new {
+                                drop(a);
+                                *acc = Some(gb);
+                                b
+                            } else {
+                                drop(b);
+                                *acc = Some(ga);
+                                a
+                            }
+                        })
+                    })
+                };
+                if fired {
+                    self.st.fault_fired[F_CLOSURE_PANIC] += 1;
+                    self.st.probes[P_CLOSURE_PANIC_FIRED] += 1;
+                }
+                if let Some(b) = bad {
+                    tok::raise(V5_ORDER, format!("reduce on a {}: {}", <$K as Kind<X>>::NAME, b));
+                    if let Ok(x) = r {
+                        std::mem::forget(x);
+                    }
+                    return true;
+                }
+                match r {
+                    Ok(x) => {
+                        let mut s2 = seen.clone();
+                        s2.sort_by_key(|g| g.first());
+                        let mut want = all.clone();
+                        want.sort_by_key(|g| g.first());
+                        let survivor = x.grp();
+                        if s2 != want || calls != n - 1 || Some(survivor) != acc.or(all.first().copied()) {
+                            tok::raise(V5_ORDER, format!("reduce on a {}: {} calls; the closure was not handed each of the {} elements exactly once, or the result is not what the last call returned", <$K as Kind<X>>::NAME, calls, n));
+                            std::mem::forget(x);
+                            return true;
+                        }
+                        let _ = guard_nopanic("drop of the value reduce returned", m(OWN_DOOMED), 0, move || drop(x));
+                        self.settle_doomed(&all, false, what);
+                    }
+                    Err(Thrown::Injected) if fired => {
+                        // ordinary unwinding through a user closure (rule R-unwind b)
+                        self.settle_doomed(&all, false, what);
+                    }
+                    Err(t) => self.unexpected(what, t),
+                }
+                true
+            }
+            VKindConv => {
+                let specs = <$K as Kind<X>>::kc_specs();
+                if specs.is_empty() {
+                    return false;
+                }
+                let v = match std::mem::replace(&mut self.form, Form::Gone) {
+                    Form::V(v) => v,
+                    other => {
+                        self.form = other;
+                        return false;
+                    }
+                };
+                let variant = op.a as usize % specs.len();
+                let spec = &specs[variant];
+                self.st.probes[P_KIND_CONV] += 1;
+                // extra elements handed in: those that end up in the result belong to the value,
+                // the others (and every own element the conversion cuts off) are destroyed by it
+                let mut extras: Vec<X> = Vec::with_capacity(spec.extras);
+                let mut eg: Vec<Grp> = Vec::with_capacity(spec.extras);
+                for j in 0..spec.extras {
+                    let kept = spec.result.iter().any(|&r| r == -(j as i8 + 1));
+                    let x = X::fresh(if self.uniform { 0 } else { 100 + j as u32 }, if kept { OWN_MAIN } else { OWN_DOOMED });
+                    eg.push(x.grp());
+                    extras.push(x);
+                }
+                self.st.elements_created += (spec.extras * X::W) as u64;
+                let mut newmodel: Vec<Grp> = Vec::with_capacity(n);
+                for &r in spec.result.iter() {
+                    newmodel.push(if r >= 0 { self.model[r as usize] } else { eg[(-r - 1) as usize] });
+                }
+                let mut doomed: Vec<Grp> = Vec::new();
+                for (i, g) in self.model.iter().enumerate() {
+                    if !spec.result.iter().any(|&r| r == i as i8) {
+                        g.set_owner(OWN_DOOMED);
+                        doomed.push(*g);
+                    }
+                }
+                for (j, g) in eg.iter().enumerate() {
+                    if !spec.result.iter().any(|&r| r == -(j as i8 + 1)) {
+                        doomed.push(*g);
+                    }
+                }
+                if !doomed.is_empty() {
+                    self.st.probes[P_KIND_CONV_TRUNC] += 1;
+                }
+                match guard_nopanic(spec.name, m(OWN_DOOMED), 0, move || <$K as Kind<X>>::v_kind_conv(v, variant, extras)) {
+                    Some(v2) => {
+                        self.model = newmodel;
+                        self.form = Form::V(v2);
+                        self.check_form(spec.name);
+                        self.settle_doomed(&doomed, false, spec.name);
+                    }
+                    None => {
+                        self.model.clear();
+                    }
+                }
+                true
+            }
             VClone => {
                 let v = match &self.form {
                     Form::V(v) => v,
@@ -1173,6 +1412,68 @@ impl<'s, X: Item> VecExec<'s, $K, X> {
                 self.st.probes[P_CONTAINER_CLONE] += 1;
                 if op.f > 0 {
                     self.st.fault_cfg[F_OBSERVE_PANIC] += 1;
+                }
+                if op.a % 2 == 1 {
+                    // w.clone_from(&v): w's old elements are destroyed exactly once, w ends up holding one
+                    // fresh clone per element of v, in place; if an element's clone() panics, w is
+                    // still a valid container (of old elements and/or clones) and nothing has leaked
+                    self.st.probes[P_CLONE_FROM] += 1;
+                    let (items, old) = Self::fresh_items(OWN_DOOMED);
+                    self.st.elements_created += (n * X::W) as u64;
+                    let mut w = <$K as Kind<X>>::v_from_arr(<$K as Kind<X>>::arr_from_vec(items));
+                    let (r, fired) = {
+                        let w = &mut w;
+                        guard(m(OWN_DOOMED) | m(OWN_FRESH), m(OWN_MAIN), plan_of(Cb::Observe, op.f), move || <$K as Kind<X>>::v_clone_from(w, v))
+                    };
+                    let fresh = tok::fresh_in_op();
+                    match r {
+                        Ok(()) => {
+                            let mut ok = true;
+                            for i in 0..n {
+                                let g = <$K as Kind<X>>::v_field(&w, i).grp();
+                                for (j, id) in g.iter().enumerate() {
+                                    let src = self.model[i].ids[j];
+                                    if !fresh.contains(&id) || tok::origin_of(id) != Some(Origin::Clone) || tok::val_of(id) != tok::val_of(src) {
+                                        ok = false;
+                                    }
+                                }
+                            }
+                            if !ok {
+                                tok::raise(V5_ORDER, format!("clone_from on a {}: the destination does not consist of one fresh clone per element of the source, in order", <$K as Kind<X>>::NAME));
+                                std::mem::forget(w);
+                                return true;
+                            }
+                            self.settle_doomed(&old, false, "clone_from (the destination's old elements)");
+                        }
+                        Err(Thrown::Injected) if fired => {
+                            self.st.fault_fired[F_OBSERVE_PANIC] += 1;
+                            self.st.probes[P_CLONE_PANIC_FIRED] += 1;
+                        }
+                        Err(t) => {
+                            self.unexpected("clone_from on a vector", t);
+                            std::mem::forget(w);
+                            return true;
+                        }
+                    }
+                    if tok::has_violation() {
+                        std::mem::forget(w);
+                        return true;
+                    }
+                    for id in &fresh {
+                        if !tok::gone(*id) {
+                            tok::set_owner(*id, OWN_CLONE);
+                        }
+                    }
+                    let _ = guard_nopanic("drop of the clone_from destination", m(OWN_CLONE) | m(OWN_DOOMED), 0, move || drop(w));
+                    for id in &fresh {
+                        if !tok::gone(*id) {
+                            tok::raise(V7_LEAK, format!("clone_from on a {}: fresh clone id {} was never destroyed", <$K as Kind<X>>::NAME, id));
+                            return true;
+                        }
+                    }
+                    self.settle_doomed(&old, false, "clone_from (the destination's old elements)");
+                    self.check_form("clone_from");
+                    return true;
                 }
                 // clone() touches the originals and creates fresh elements; if an element's clone
                 // panics, the fresh ones made so far are destroyed by the unwinding
@@ -1386,6 +1687,10 @@ impl<'s, X: Item> VecExec<'s, $K, X> {
                     self.st.fault_cfg[F_SINK] += 1;
                     set_sink_fail(op.b);
                 }
+                if op.b > 0 && kind == 1 {
+                    self.st.fault_cfg[F_HASHER] += 1;
+                    tok::set_hash_fail(op.b);
+                }
                 let touch = m(OWN_MAIN) | if kind == 3 || kind == 4 { m(OWN_TWIN) } else { 0 };
                 let (r, fired) = guard(0, touch, plan_of(Cb::Observe, op.f), || match kind {
                     0 => {
@@ -1422,9 +1727,14 @@ impl<'s, X: Item> VecExec<'s, $K, X> {
                     self.st.fault_fired[F_SINK] += 1;
                     self.after_obs_panic = true;
                 }
+                let hfired = tok::take_hash_fired();
+                if hfired {
+                    self.st.fault_fired[F_HASHER] += 1;
+                    self.after_obs_panic = true;
+                }
                 match r {
                     Ok(()) => {}
-                    Err(Thrown::Injected) if fired => {}
+                    Err(Thrown::Injected) if fired || hfired => {}
                     Err(t) => self.unexpected("observe", t),
                 }
                 self.check_len("observe");
@@ -1582,8 +1892,20 @@ impl<'s, X: Item> VecExec<'s, $K, X> {
                 if op.a % 8 == 3 {
                     // Default probe: an iterator made by `Default` owns whatever it created; every
                     // such element must be yielded or destroyed like any other
-                    let (r, _) = guard(0, 0, None, || crate::probe::try_default_iter::<<$K as Kind<X>>::It>());
+                    if op.f > 0 {
+                        self.st.fault_cfg[F_DEFAULT_PANIC] += 1;
+                    }
+                    let (r, dfired) = guard(m(OWN_FRESH), 0, plan_of(Cb::Default, op.f), || crate::probe::try_default_iter::<<$K as Kind<X>>::It>());
                     match r {
+                        Err(Thrown::Injected) if dfired => {
+                            self.st.fault_fired[F_DEFAULT_PANIC] += 1;
+                            for id in tok::fresh_in_op() {
+                                if !tok::gone(id) {
+                                    tok::raise(V7_LEAK, format!("Default for the iterator unwound: default element id {} leaked", id));
+                                    return true;
+                                }
+                            }
+                        }
                         Ok(None) => {}
                         Ok(Some(mut d)) => {
                             self.st.probes[P_DEFAULT_PROBE_ACTIVE] += 1;
@@ -1661,8 +1983,14 @@ impl<'s, X: Item> VecExec<'s, $K, X> {
                     // fall through to the clone probe below
                 } else if sel == 1 {
                     // ordering probe: comparing the iterator with itself may only touch live elements
-                    let (r, _) = guard(0, m(OWN_MAIN), None, || crate::probe::try_cmp_iter::<<$K as Kind<X>>::It>(it));
+                    if op.f > 0 {
+                        self.st.fault_cfg[F_OBSERVE_PANIC] += 1;
+                    }
+                    let (r, ofired) = guard(0, m(OWN_MAIN), plan_of(Cb::Observe, op.f), || crate::probe::try_cmp_iter::<<$K as Kind<X>>::It>(it));
                     match r {
+                        Err(Thrown::Injected) if ofired => {
+                            self.st.fault_fired[F_OBSERVE_PANIC] += 1;
+                        }
                         Ok(None) => {}
                         Ok(Some(_)) => self.st.probes[P_ORD_PROBE_ACTIVE] += 1,
                         Err(t) => self.unexpected("partial_cmp on the iterator", t),
@@ -1701,8 +2029,25 @@ impl<'s, X: Item> VecExec<'s, $K, X> {
                     }
                     return true;
                 }
-                let cloned = guard(0, m(OWN_MAIN), None, || crate::probe::try_clone_iter::<<$K as Kind<X>>::It>(it));
+                // a panic inside an element's clone() (fault kind F3): the half-built clone is destroyed
+                // by the unwinding; it may destroy only the clones it made, never the original's elements
+                if op.f > 0 {
+                    self.st.fault_cfg[F_OBSERVE_PANIC] += 1;
+                }
+                let cloned = guard(m(OWN_FRESH), m(OWN_MAIN), plan_of(Cb::Observe, op.f), || crate::probe::try_clone_iter::<<$K as Kind<X>>::It>(it));
+                let cfired = cloned.1;
                 match cloned.0 {
+                    Err(Thrown::Injected) if cfired => {
+                        self.st.fault_fired[F_OBSERVE_PANIC] += 1;
+                        self.st.probes[P_CLONE_PANIC_FIRED] += 1;
+                        for id in tok::fresh_in_op() {
+                            if !tok::gone(id) {
+                                tok::raise(V7_LEAK, format!("clone of the iterator unwound: fresh clone id {} leaked", id));
+                                return true;
+                            }
+                        }
+                        self.check_len("clone probe (unwound)");
+                    }
                     Ok(None) => {}
                     Ok(Some(c)) => {
                         self.st.probes[P_CLONE_PROBE_ACTIVE] += 1;
